@@ -1602,6 +1602,12 @@ func zipAllInnerSubscriptions[T any](outerCtx context.Context, sources []Observa
 
 			mu.Lock()
 
+			if values == nil {
+				// torn down while the tuple was being delivered
+				mu.Unlock()
+				return
+			}
+
 			for i := range sources {
 				if completed[i] && len(values[i]) == 0 {
 					mu.Unlock() // complete out of the lock: the teardown takes it
